@@ -31,12 +31,18 @@ type SyncCase struct {
 	// MemResize: in-memory source whose files changed size between listing and reading: readers deliver
 	// len+MemResize bytes (negative: the tail is missing; -1<<30: nothing at all)
 	MemResize int `json:"memresize,omitempty"`
+	// MetaOn: metadata-only receive selecting exactly the paths in MetaSel
+	MetaOn  bool     `json:"metaon,omitempty"`
+	MetaSel []string `json:"metasel,omitempty"`
 }
 
 func (c SyncCase) String() string {
 	s := fmt.Sprintf("src=%s dst=%s merge=%v mem=%v differ=%d", c.Src, c.Dst, c.Merge, c.Mem, c.Differ)
 	if c.MemResize != 0 {
 		s += fmt.Sprintf(" source-files-resized-by=%d", c.MemResize)
+	}
+	if c.MetaOn {
+		s += fmt.Sprintf(" metadata-only select=%q", c.MetaSel)
 	}
 	return s
 }
@@ -144,6 +150,13 @@ func (d *syncDirs) transferFault(c SyncCase, srcTree fsmodel.Tree, fault xfer.Fa
 			st.Uid, st.Gid = 0, 0
 			return true
 		}
+	}
+	if c.MetaOn {
+		sel := map[string]bool{}
+		for _, p := range c.MetaSel {
+			sel[p] = true
+		}
+		opt.MetadataOnly = func(p string, _ *types.Stat) bool { return sel[p] }
 	}
 	if c.FilterShift {
 		opt.Filter = func(p string, st *types.Stat) bool {
